@@ -419,7 +419,12 @@ class Resolver:
             elif k == 'downcast':
                 t = proj_variant(t, e['v'])
             elif k == 'index':
-                t = ('index', t, self.local(e['l'], stack))
+                it_ = self.local(e['l'], stack)
+                iv_ = strip_casts(it_)
+                if t[0] == 'array' and iv_[0] == 'const' and isinstance(iv_[1], int) and not isinstance(iv_[1], bool) and 0 <= iv_[1] < len(t[1]):
+                    t = t[1][iv_[1]]          # `[r, g, b][0]`: the element itself
+                else:
+                    t = ('index', t, it_)
             elif k == 'constindex':
                 if t[0] == 'array' and not e['from_end'] and e['offset'] < len(t[1]):
                     t = t[1][e['offset']]
